@@ -17,6 +17,8 @@ Verdict = the property evaluated on the IMPLEMENTATION's output:
   viol:callback-lost     a callback of a completed future was not invoked
   viol:value-mismatch    a callback received a value different from its future's final value
   viol:first-completion  a future's final value is not the first completion's
+  viol:callback-lost / callback-twice / chain-stuck   (race) registrations racing ONE completion on fresh futures:
+                         a callback ran 0 / more than 1 times, or a composed future downstream never completed
   viol:chain-order       (seq) a composed future is completed although its source / inner future is not
 -/
 namespace Gate.C42
@@ -169,7 +171,35 @@ def verdictPar (impl : String) (s : Sys) (nf : Nat) (prog : List (List Call)) : 
     else "ok"
   | _, _, _, _ => "viol:unparsable"
 
+/-- `race G N compose`: G registrars (every second one through ThenCompose when `compose`) and one completer on a
+    fresh future, N times.  The model runs one instance under one schedule; by the theorems every schedule gives
+    every callback exactly once and every composed future completed, so the expected counts are 0. -/
+def raceCase (g n : Nat) (comp : Bool) (impl : String) : String × String :=
+  let regs : List (List Call) := (List.range g).map fun i =>
+    if comp && i % 2 == 0 then [compose 0 1 (2 + i) (.log i)] else [.thenAccept 0 (.log i)]
+  let prog := [[Call.complete 1 1]] ++ regs ++ [[Call.complete 0 7]]
+  let s0 := mkSys prog
+  let fuel := weight s0 + 1
+  let s := roundRobin .repaired fuel (runThread .repaired fuel s0 0)
+  let cnt := fun (i : Nat) => (s.log.filter (·.1 == i)).length
+  let ran0 := ((List.range g).filter (fun i => cnt i == 0)).length * n
+  let ran2 := ((List.range g).filter (fun i => cnt i > 1)).length * n
+  let stuck := ((List.range g).filter (fun i => comp && i % 2 == 0 && (s.value (2 + i)).isNone)).length * n
+  let out := s!"ran0={ran0} ran2={ran2} stuck={stuck}"
+  let verdict :=
+    if impl = "hang" then "viol:deadlock" else if impl = "panic" then "viol:panic"
+    else if field impl "ran0" != some "0" then "viol:callback-lost"
+    else if field impl "ran2" != some "0" then "viol:callback-twice"
+    else if field impl "stuck" != some "0" then "viol:chain-stuck"
+    else "ok"
+  (out, verdict)
+
 def stepCase (c : Case) : String × String :=
+  if c.op = "race" then
+    match c.args.map String.toNat? with
+    | [some g, some n, some k] => raceCase g n (k == 1) c.impl
+    | _ => ("bad-case", "-")
+  else
   match c.args with
   | nfS :: toks =>
     match nfS.toNat?, parseProg toks with
